@@ -163,8 +163,8 @@ def check(ctx):
     cov = {
         "states": sum(m["distinct"] for m in mc),
         "transitions": sum(m["transitions"] for m in mc),
-        "traces_validated_against_impl": nexec,
-        "distinct_traces_passed_to_tlc": nuniq,
+        "traces_validated_against_impl": nuniq,
+        "executions_recorded": nexec,
         "events_validated": nev,
         "samples": samples,
         "evaluations": nexec,
